@@ -92,6 +92,9 @@ def programs(draw, target):
         head["late_member_at"] = draw(st.integers(1, max(1, len(ops) - 1)))
     # a candle lifespan (steady state: one candle in, one out) in a third of the programs
     head["lifespan"] = draw(st.sampled_from((None, None, 4 * step, 9 * step)))
+    # a Hexital-level candlestick type: the default manager converts the Candle objects it is given in place, so the
+    # other timeframes must have taken their copy first - Candle objects (the twin) and dicts/lists must still agree
+    head["hx_ha"] = bool(target == "hexital" and draw(st.integers(0, 3)) == 0)
     return head
 
 
@@ -179,7 +182,7 @@ def _hx_state(hx):
     hx = deepcopy(hx)
     out = {
         "managers": {k: (snap(m.candles), m.timeframe, m.timeframe_fill, repr(m.candles_lifespan)) for k, m in hx._candles.items()},
-        "attrs": {k: repr(v) for k, v in sorted(vars(hx).items()) if not k.startswith("_")},
+        "attrs": {k: (type(v).__name__ if k == "candlestick_type" else repr(v)) for k, v in sorted(vars(hx).items()) if not k.startswith("_")},
         "indicator_settings": repr(hx.indicator_settings),
         "timeframes": sorted(hx.timeframes),
         "indicators": {},
@@ -246,7 +249,7 @@ def _make(case, reads=False):
             for what in case.get("pre_reads", []):
                 str(ind) if what == "str" else ind.as_list() if what == "as_list" else getattr(ind, what)
     first = inds[:-1] if case.get("late_member_at") else inds
-    hx = Hexital("c19", [], first, candles_lifespan=life or timedelta(hours=12), **({"timeframe": case["tf"]} if case.get("tf") else {}))
+    hx = Hexital("c19", [], first, candles_lifespan=life or timedelta(hours=12), **({"timeframe": case["tf"]} if case.get("tf") else {}), **({"candlestick_type": "HA"} if case.get("hx_ha") else {}))
     hx._c19_late = inds[-1] if case.get("late_member_at") else None
     return hx, names
 
@@ -261,6 +264,8 @@ def run_case(case) -> Result:
         return Result([], False, ["setup_raises"])
     if is_hx and len(real._candles) >= 2:
         labels.append("hexital_multi_tf")
+        if case.get("hx_ha"):
+            labels.append("hexital_ha_multi_tf")
     state = _hx_state if is_hx else _state
     sent, read_then_append, seen_read = [], False, False
     all_names = names
@@ -315,18 +320,31 @@ def run_case(case) -> Result:
             sent += op["rows"]
             if before is not None and not same(before, payload):
                 return Result([Violation("caller-container-modified", "append:" + op["enc"].replace("_single", ""), f"{where}: passed {before!r}, afterwards {payload!r}", "append")], read_then_append, labels)
-            if is_hx and sent and sent[0][0] is not None and not case.get("lifespan"):
+            if is_hx and sent and sent[0][0] is not None and not case.get("lifespan") and not case.get("hx_ha"):
                 for mname, m in real._candles.items():
                     if m.timeframe:
                         want = rr.resample(sent, tf_seconds(m.timeframe))
                         got = snap(m.candles, readings=False)
                         if got != want:
                             return Result([Violation("timeframe-did-not-receive-the-candles", "append:" + op["enc"].replace("_single", ""), f"{where}: manager {mname} holds {len(got)} candles {got[-2:]} but the rows sent so far resample to {len(want)} {want[-2:]}", "append")], read_then_append, labels)
-        a, b = state(real), state(twin)
+        a, b = _scrub(state(real)), _scrub(state(twin))
         if not same(a, b):
             site = ("read:" + op["what"]) if op["op"] == "read" else "cursor:calculate_index" if op["op"] == "cursor" else "append:" + op["enc"].replace("_single", "")
             return Result([Violation("state-differs-from-twin", site, f"{where}: " + _first_difference(a, b), site.split(":")[0])], read_then_append, labels)
     return Result([], read_then_append, sorted(set(labels)))
+
+
+def _scrub(x):
+    """object addresses in default reprs (a candlestick-type object inside a settings dict) are not state"""
+    import re
+
+    if isinstance(x, str):
+        return re.sub(r" at 0x[0-9a-fA-F]+", "", x)
+    if isinstance(x, dict):
+        return {k: _scrub(v) for k, v in x.items()}
+    if isinstance(x, (list, tuple)):
+        return type(x)(_scrub(v) for v in x)
+    return x
 
 
 def _first_difference(a, b, path=""):
